@@ -583,3 +583,4 @@ Definition bgp_next_id_unused (st : bstate) : Prop :=
 Definition b_sess_of (st : bstate) (k : N) : option (N * N) := bs_sess st !! k.
 Definition b_live (st : bstate) : list N :=
   List.filter (fun k => match bs_sess st !! k with Some _ => true | None => false end) bgp_addrs.
+Definition b_peer_of (c : bcfg) (k : N) : option N := bc_peers c !! k.
